@@ -5,7 +5,7 @@ CONFIG = {
     "properties_files": ["theories/Dir/Properties.v"],
     "required_theorems": ["trace_ok_model", "trace_ok_refuted", "dir_refines", "changeid_strict", "readdir_complete", "reachable_well_formed"],
     "harnesses": [
-        {"cmd": "dir", "cases_quick": 320, "cases_thorough": 8000, "shards_quick": 8, "shards_thorough": 32, "race": True, "shared": True, "coq_dirs": ["theories/Dir"]},
+        {"cmd": "dir", "cases_quick": 320, "cases_thorough": 5000, "shards_quick": 8, "shards_thorough": 32, "race": True, "shared": True, "coq_dirs": ["theories/Dir"]},
     ],
     # the dir harness also reports leaked directory locks ("C14:lock-leak:<method>"); those belong to C14
     "violation_kinds": ["C13:"],
